@@ -14,18 +14,19 @@ import (
 )
 
 type evalCtx struct {
-	st    *State             // state in which heaps / cells are read
-	old   *State             // state for old(...)
-	env   map[string]binding // names bound by the caller (callee-contract application) or quantifiers
-	fr    *frame             // frame whose locals are visible (own-contract evaluation)
-	pkg   string             // package path the contract text belongs to (for unqualified globals)
-	inOld bool
-	side  *[]smt.T // type invariants (ranges, slice well-formedness) of heap values read by the expression
+	st            *State             // state in which heaps / cells are read
+	old           *State             // state for old(...)
+	env           map[string]binding // names bound by the caller (callee-contract application) or quantifiers
+	fr            *frame             // frame whose locals are visible (own-contract evaluation)
+	pkg           string             // package path the contract text belongs to (for unqualified globals)
+	inOld         bool
+	paramsCurrent bool     // loop invariants and call clauses: a parameter name means its current value, old(p) its entry value
+	side          *[]smt.T // type invariants (ranges, slice well-formedness) of heap values read by the expression
 }
 
 // sideFacts records the type invariants of a value read from the heap, unless it depends on a bound variable.
 func (x *Exec) sideFacts(c *evalCtx, v smt.T, t types.Type) {
-	if c.side == nil || t == nil || strings.Contains(v.S, "!b") {
+	if c.side == nil || t == nil || strings.Contains(v.S, "!b") || isTypeParam(t) {
 		return
 	}
 	switch t.Underlying().(type) {
@@ -75,7 +76,7 @@ func (x *Exec) evalClauseExtra(e gcl.Expr, st, old *State, fr *frame, results []
 		pkg = x.contract.Pkg
 	}
 	var side []smt.T
-	t, err := x.evalExpr(e, &evalCtx{st: st, old: old, env: env, fr: fr, pkg: pkg, side: &side})
+	t, err := x.evalExpr(e, &evalCtx{st: st, old: old, env: env, fr: fr, pkg: pkg, side: &side, paramsCurrent: results == nil})
 	st.assume(dedup(side)...)
 	return t, err
 }
@@ -169,7 +170,7 @@ func (x *Exec) evalTyped(e gcl.Expr, c *evalCtx) (typed, error) {
 			srt, gt := smt.Int, types.Type(types.Typ[types.Int])
 			if i < len(e.Sorts) && e.Sorts[i] != "" {
 				srt = x.specSort(e.Sorts[i])
-				gt = x.specGoType(e.Sorts[i])
+				gt = x.specParamType(e.Sorts[i], c.pkg)
 			}
 			c2.env[v] = binding{smt.Raw(name, srt), gt}
 			decl = append(decl, "("+name+" "+srt+")")
@@ -307,6 +308,20 @@ func (x *Exec) localNamed(name string, c *evalCtx) *ssa.Alloc {
 }
 
 func (x *Exec) evalIdent(name string, c *evalCtx) (typed, error) {
+	if c.paramsCurrent && !c.inOld && c.fr != nil {
+		if _, isParam := x.params[name]; isParam {
+			for _, b := range x.fn.Blocks {
+				for _, in := range b.Instrs {
+					if a, ok := in.(*ssa.Alloc); ok && a.Comment == name && x.isRegCell(a) {
+						if v, live := c.st.cells[a]; live {
+							return tv(v, deref(a.Type())), nil
+						}
+					}
+				}
+				break // parameter cells are allocated in the entry block
+			}
+		}
+	}
 	if b, ok := c.env[name]; ok {
 		return tv(b.t, b.typ), nil
 	}
